@@ -238,6 +238,20 @@ check('C15',
       'TLA+ two-front-end spec (TLC exhaustive), replay through pytest subprocesses and the native runner',
       'DESIGN.md section 5 (C15)', 'session')
 
+check('C20',
+      'DocParse.tla over examples in standard syntax (C20_Blocks: silent assignment, comment, echoed value, print, print and value, raising with '
+      '2/3-line traceback want, semicolon line, multi-line literal / expression, compound and decorated statements with "..." continuations with or '
+      'without a bare terminator, examples with # doctest: +SKIP / +ELLIPSIS / +NORMALIZE_WHITESPACE, blank lines and prose). TLC checks StdCompat '
+      'for every docstring of <=3 blocks: every want stays with the example directly above it, a value is echoed (eval/single) exactly for '
+      'expression examples, and the only configuration that cannot match "stdout + repr" is eval mode on a print-and-value example (known finding '
+      'F6, named in the spec). Wants are produced by the standard module\'s own runner (REPL semantics); the text is run by '
+      'doctest.DocTestRunner(optionflags=0) - rejected texts are discarded and counted - and by xdoctest, which must collect it, pass, and '
+      'execute the same examples (trace equal to the standard module\'s).',
+      DOCPARSE_NOTE + ' The standard doctest module itself decides which texts count. F6 is reported as KNOWN-FINDING (signature: print-and-value '
+      'example on a part in eval mode).',
+      'TLA+ parser spec over standard-syntax examples (TLC exhaustive), differential replay against the standard doctest module',
+      'DESIGN.md section 5 (C20)', 'docparse')
+
 NOT_YET = ['C01', 'C02', 'C03', 'C04', 'C05', 'C07', 'C08', 'C09', 'C10', 'C11', 'C12', 'C13', 'C14', 'C15', 'C16',
            'C17', 'C18', 'C19', 'C20']
 
